@@ -179,6 +179,66 @@ pub mod buffer;
             }
         }
 
+
+        // unary arms: the NULLs of the result are exactly the NULLs of the (nullable) input
+        macro_rules! unary { ($h:ident, $mk:expr, $is_value_op:expr) => {
+            #[kani::proof]
+            #[kani::unwind(5)]
+            fn $h() {
+                let (mut bp, input, other, out) = setup(EncodingType::NullableI64, EncodingType::U8, EncodingType::NullableU8);
+                let fresh_from = bp.buffer_count;
+                let op: QueryPlan = ($mk)(input, other, out);
+                match propagate_nullability(&op, &mut bp) {
+                    Rewrite::ReplaceWith(ops) => {
+                        let (a, b, data) = null_sources(&ops, &out);
+                        assert!(data.is_some(), "[result-defined] the rewritten plan still defines the nullable result buffer");
+                        let data = data.unwrap();
+                        assert!(covers(&(a, b), &input) && only_operands(&(a, b), &input, &input), "[input-null-propagates] the result is NULL exactly where the input is NULL");
+                        let mut found = false;
+                        for o in ops.iter() { if ($is_value_op)(o, &input.forget_nullability(), &data) { found = !data.is_nullable() && data.buffer.i >= fresh_from; } }
+                        assert!(found, "[values-from-same-op] the values come from the same operator applied to the input's data, written to a fresh buffer");
+                    }
+                    Rewrite::None => { assert!(false, "[rewritten] an operator with a nullable result is rewritten"); }
+                }
+            }
+        } }
+        unary!(cast_nulls, |input, _other, out| Cast { input, casted: out },
+               |o: &QueryPlan, i: &TypedBufferRef, d: &TypedBufferRef| match o { Cast { input, casted } => same(input, i) && same(casted, d), _ => false });
+        unary!(floor_nulls, |input, _other, out| Floor { input, floor: out },
+               |o: &QueryPlan, i: &TypedBufferRef, d: &TypedBufferRef| match o { Floor { input, floor } => same(input, i) && same(floor, d), _ => false });
+        unary!(dict_lookup_nulls, |input, other: TypedBufferRef, out| DictLookup { indices: input, offset_len: BufferRef { i: other.buffer.i, name: "ol", t: PhantomData }, backing_store: BufferRef { i: other.buffer.i, name: "bs", t: PhantomData }, decoded: out },
+               |o: &QueryPlan, i: &TypedBufferRef, d: &TypedBufferRef| match o { DictLookup { indices, decoded, .. } => same(indices, i) && same(decoded, d), _ => false });
+
+        // MergeKeep of a nullable and a non-nullable side: the non-nullable side is wrapped (MakeNullable), then merged
+        #[kani::proof]
+        #[kani::unwind(5)]
+        fn merge_keep_mixed_nullability() { for k in 0..2 {
+            let sides = [(EncodingType::NullableI64, EncodingType::I64), (EncodingType::Str, EncodingType::NullableStr)];
+            let (mut bp, lhs, rhs, out) = setup(sides[k].0, sides[k].1, sides[k].0.nullable());
+            let take_left: BufferRef<u8> = BufferRef { i: out.buffer.i, name: "tl", t: PhantomData };
+            let op = MergeKeep { take_left, lhs, rhs, merged: out };
+            match propagate_nullability(&op, &mut bp) {
+                Rewrite::ReplaceWith(ops) => {
+                    let mut wrapped: Option<(TypedBufferRef, TypedBufferRef)> = None;
+                    let mut merged_ok = false;
+                    for o in ops.iter() {
+                        match o {
+                            MakeNullable { data, nullable, .. } => { wrapped = Some((*data, *nullable)); }
+                            MergeKeep { lhs: l, rhs: r, merged, .. } => {
+                                if let Some((d, n)) = wrapped {
+                                    merged_ok = same(merged, &out) && l.is_nullable() && r.is_nullable()
+                                        && ((same(&d, &lhs) && same(l, &n) && same(r, &rhs)) || (same(&d, &rhs) && same(r, &n) && same(l, &lhs)));
+                                }
+                            }
+                            _ => {}
+                        }
+                    }
+                    assert!(merged_ok, "[both-sides-nullable] the side without NULLs is wrapped as all-present and the merge runs on two nullable sides, each still its own side");
+                }
+                Rewrite::None => { assert!(false, "[rewritten] a merge of a nullable with a non-nullable side is rewritten"); }
+            }
+        } }
+
         #[kani::proof]
         fn vx_canary() {
             let x: u8 = kani::any();
